@@ -900,6 +900,7 @@ def _proj_compatible(a, b):
 
 
 _FORM_FIELDS = False
+CONST_AS_VALUE = False      # atoms mode: a named scalar constant is its value (`96` -> `MAX_BLOCK_EXTENSION_BYTES` is no change, a changed value is)
 
 
 def expr_sig(body, op, depth=0, seen=None, out=None):
@@ -914,7 +915,10 @@ def expr_sig(body, op, depth=0, seen=None, out=None):
         return out
     if "p" not in op:
         if op.get("c") and not str(op["c"]).startswith("fn:"):
-            out.append("leaf:const:" + op["c"])
+            if CONST_AS_VALUE and op.get("v") is not None and op.get("ty") not in ("bool", "()"):
+                out.append("lit:" + str(op["v"]))
+            else:
+                out.append("leaf:const:" + op["c"])
         elif op.get("v") is not None and op.get("ty") not in ("bool", "()"):
             out.append("lit:" + str(op["v"]))
         return out
@@ -924,6 +928,34 @@ def expr_sig(body, op, depth=0, seen=None, out=None):
     if local in seen and not (_FORM_FIELDS and 1 <= local <= body.argc and not body.defs().get(local)):
         return out
     seen.add(local)
+    if CONST_AS_VALUE and local == 1 and body.kind not in ("Fn", "AssocFn") and body.parent and not body.defs().get(1):
+        # atoms mode: a captured variable is the value the parent body captured (so `let store = self.store();` hoisted out of a closure,
+        # or a loop turned into a closure, keeps its form)
+        idx = None
+        for pr in projs:
+            m_ = re.search(r"#(\d+)$", str(pr))
+            if m_:
+                idx = int(m_.group(1))
+                break
+        par = body.facts.body(body.parent, body.crate) if idx is not None else None
+        if par is not None:
+            for blk in par.blocks:
+                for st in blk["s"]:
+                    rv = st[1]
+                    if rv.get("k") == "agg" and rv.get("ak") == "closure" and rv.get("adt") == body.path:
+                        ops = rv.get("ops", [])
+                        if idx < len(ops):
+                            sub = expr_sig(par, ops[idx], depth + 1, None, [])
+                            pinv = {v: k for k, v in par.local_names().items() if 1 <= k <= par.argc}
+                            rest = [str(x).split(".")[-1] for x in projs if str(x).startswith(".") and not re.search(r"#\d+$", str(x))]
+                            for x in sub:
+                                if x.startswith("leaf:param:"):
+                                    n, _, fld = x[11:].partition(".")
+                                    x = "leaf:param:%s%s" % (pinv.get(n, n), ("." + fld) if fld else "")
+                                    if rest and _FORM_FIELDS:
+                                        x += "".join("." + r for r in rest)
+                                out.append(x)
+                            return out
     if 1 <= local <= body.argc and not body.defs().get(local):
         fld = ""
         if _FORM_FIELDS:
@@ -995,7 +1027,9 @@ def expr_sig(body, op, depth=0, seen=None, out=None):
                 # x.and_then(|v| f(v)) / x.map(..) / x.ok_or(e): the value is the receiver pushed through the closure
                 if c.args:
                     expr_sig(body, c.args[0], depth + 1, seen, out)
-                for a in c.args[1:]:
+                # atoms mode: what `ok_or(e)` / `ok_or_else(|| e)` / `map_err(f)` build is the error, not the value
+                rest = [] if (CONST_AS_VALUE and re.search(r"::(ok_or|ok_or_else|map_err)$", c.callee)) else c.args[1:]
+                for a in rest:
                     cbs = closure_of_local(body, a["p"][0]) if "p" in a else []
                     for cb in cbs:
                         expr_sig(cb, {"p": [0, []]}, depth + 1, None, out)
